@@ -16,7 +16,8 @@ vars == <<prog, val>>
 \* ------------------------------------------------------------- seed universe
 \* coefficient vectors per term (0 included so that zero terms and cancellation occur)
 CoefVecs(n) ==
-  IF n = 1 THEN (IF Universe \in {"quick", "laws"} THEN {<<-1>>, <<2>>} ELSE {<<-2>>, <<0>>, <<1>>})
+  IF Universe = "config" THEN (IF n = 1 THEN {<<0>>, <<2>>} ELSE {[k \in 1..n |-> 0], [k \in 1..n |-> IF k = 1 THEN 1 ELSE -1]})
+  ELSE IF n = 1 THEN (IF Universe \in {"quick", "laws"} THEN {<<-1>>, <<2>>} ELSE {<<-2>>, <<0>>, <<1>>})
   ELSE IF n = 2 THEN (IF Universe \in {"quick", "laws"} THEN {<<1, -1>>, <<0, 2>>}
                       ELSE {<<1, -1>>, <<0, 2>>, <<-1, 0>>})
   ELSE {[k \in 1..n |-> 1], [k \in 1..n |-> IF k = 1 THEN -1 ELSE 0]}
@@ -28,10 +29,15 @@ AllLayouts ==
     [names |-> <<0, 1>>, rows |-> <<<<1, 1>>>>], [names |-> <<0, 1>>, rows |-> <<<<1, 0>>, <<0, 1>>>>],
     [names |-> <<0, 2>>, rows |-> <<<<0, 0>>, <<1, 2>>>>] }
 \* the "laws" universe is smaller: it is explored with three seeds for associativity / distributivity
+\* the "config" universe (C15: every program under every option setting and several coefficient dtypes)
+\* has all-zero terms, also ones that are the only user of a name
 Layouts == IF Universe = "laws"
            THEN {lay \in AllLayouts : lay.rows \in {<<<<0>>>>, <<<<1>>>>, <<<<0>>, <<1>>>>, <<<<1, 1>>>>}}
+           ELSE IF Universe = "config"
+           THEN {lay \in AllLayouts : lay.rows \in {<<<<0>>>>, <<<<0>>, <<1>>>>, <<<<1, 0>>, <<0, 1>>>>, <<<<0, 0>>, <<1, 2>>>>}
+                                      \/ lay.names = <<1>>}
            ELSE AllLayouts
-SeedShapes == IF Universe \in {"quick", "laws"} THEN {<<>>, <<2>>} ELSE {<<>>, <<2>>, <<2, 1>>}
+SeedShapes == IF Universe \in {"quick", "laws", "config"} THEN {<<>>, <<2>>} ELSE {<<>>, <<2>>, <<2, 1>>}
 Seeds ==
   UNION { { [kind |-> "poly", shape |-> s, names |-> lay.names, rows |-> lay.rows, coefs |-> c] :
               c \in [1..Len(lay.rows) -> CoefVecs(Size(s))] } :
